@@ -71,6 +71,21 @@ def cases(rng, tier, shard, nshards):
     nmax = NMAX_ALL[tier]
     while True:
         version = rng.choice(["gfa1", "gfa2"])
+        if rng.random() < 0.08:
+            # paths which state different overlaps for a step over a link whose overlap is not
+            # specified (each path arriving before the link makes a placeholder link of its own)
+            from . import c04 as C4
+            from ..spec import document as D
+            for _ in range(30):
+                lines = C4.path_link_overlap_doc(rng)
+                if D.recognise_doc(lines, "gfa1")[0] == S.VALID:
+                    break
+            else:
+                continue
+            ctx_note = "path-link-overlaps"
+            yield {"version": "gfa1", "lines": lines, "mode": "random", "n": 40 if tier == "quick" else 200,
+                   "seed": rng.getrandbits(32), "explicit": rng.random() < 0.3, "stratum": ctx_note}
+            continue
         if rng.random() < 0.2:
             lines, ulines, olines = multiline_doc(rng)
             yield {"k": "multiline", "version": "gfa2", "lines": lines, "ulines": ulines, "olines": olines,
@@ -225,6 +240,8 @@ def run(case, ctx):
             defined.add(n)
     if len(set(lines)) < len(lines):
         ctx.count("documents_with_twin_records")
+    if case.get("stratum"):
+        ctx.count("documents_" + case["stratum"])
     seen_orders = set()
     for p in perms(case):
         order = [lines[i] for i in p]
